@@ -728,6 +728,21 @@ pub fn generate(ctx: &mut Ctx) {
         }
         rec2(ctx, alpha, &mut buf, max_len - 1);
     }
+    // several hundred distinct VALID filters, every fifth padded with blanks / line breaks, one after the other on one
+    // thread (a per-thread memo of parsed filters is filled, evicted and refilled on the way)
+    for n in 0..330usize {
+        let pad = ["", " ", "\n", "  \t", " \r\n"][n % 5];
+        for t in [format!("point and curVal > {n}{pad}"), format!("{pad}site or equip and navName == \"n{n}\""), format!("a{n}->b == @r{n}{pad}")] {
+            ctx.case("many", &format!("p {}", vx::hex(t.as_bytes())));
+        }
+    }
+    // a non-ASCII character where a token would start, as the LAST character of the text (and followed by a blank)
+    for tail in ["\u{a0}", "§", "…", "é", "😀", "\u{2028}", "€ "] {
+        for head in ["", "site and equip", "site and equip ", "a == 1 or ", "not ", "(a and ", "a->"] {
+            let t = format!("{head}{tail}");
+            ctx.case("tail", &format!("p {}", vx::hex(t.as_bytes())));
+        }
+    }
     // token soup over the filter alphabet, random bytes
     let n = ctx.n(2500, 400_000);
     for _ in 0..n {
